@@ -180,6 +180,9 @@ def run_check(pid, tier, seed=None, workers=None, quiet=False):
     wenv["OMP_NUM_THREADS"] = "1"
     wenv["OPENBLAS_NUM_THREADS"] = "1"
     for w in range(nworkers):
+        if hasattr(mod, "worker_env"):
+            wenv = dict(wenv)
+            wenv.update(mod.worker_env(w, nworkers, tier))
         out = os.path.join(tmp, "w%d.json" % w)
         log = open(os.path.join(tmp, "w%d.log" % w), "w")
         p = subprocess.Popen(
